@@ -15,7 +15,9 @@ class SHACryptInfo:
     hash: str
 
     def as_str(self):
-        return f"{self._prefix}rounds={self.rounds}${self.salt}${self.hash}"
+        # rounds=None is the implicit (5000 rounds) form, which has no "rounds=" field
+        rounds = f"rounds={self.rounds}$" if self.rounds is not None else ""
+        return f"{self._prefix}{rounds}{self.salt}${self.hash}"
 
     @property
     @abc.abstractmethod
